@@ -274,6 +274,28 @@ def main():
         else:
             notes.append(f"correspondence also broken: {rp}")
 
+    # a proof obligation / the translator / the correspondence broke AND the search found a failing input: the input is the
+    # replay (the broken obligations are named inside it); `no-failing-input-found` is only for a search that found none
+    if oracle_unlisted:
+        breaks = [(rp, sfx) for rp, sfx in violations if sfx]
+        if breaks:
+            broken = []
+            for rp, _ in breaks:
+                try:
+                    broken.append({"replay": rp, "broken": json.load(open(os.path.join(ROOT, rp))).get("broken")})
+                except Exception:
+                    broken.append({"replay": rp})
+            for rp, sfx in violations:
+                if not sfx:
+                    try:
+                        d = json.load(open(os.path.join(ROOT, rp)))
+                        d["also_broken"] = broken
+                        json.dump(d, open(os.path.join(ROOT, rp), "w"), indent=1, ensure_ascii=False)
+                    except Exception:
+                        pass
+            violations = [(rp, sfx) for rp, sfx in violations if not sfx]
+            notes.append("obligations that no longer check (a failing input was found, see the oracle replays): " + ", ".join(str(b.get("broken"))[:80] for b in broken))
+
     wall = time.time() - t0
     ev = {
         "property_id": pid, "tier": tier, "seed": seed, "level": "proof",
